@@ -72,8 +72,10 @@ AlgoMedian2(v) == \* twice the value the double instantiation returns
   ELSE LET s == Sorted(v)  i == Len(v) \div 2 IN          \* i is the 0-based middle
        IF Len(v) % 2 = 0 THEN s[i] + s[i+1] ELSE 2 * s[i+1]
 
-AlgoSeq(from, to, by) ==
-  LET cnt == (AbsI(from - to) \div by) + 1         \* (|from-to| + by/100) / by + 1, by < 100
+\* count = (|from - to| + tolerance) / by + 1 with tolerance by/100 for reals, none for integers
+AlgoSeq(t, from, to, by) ==
+  LET dist == AbsI(from - to)
+      cnt == IF t = "int" THEN (dist \div by) + 1 ELSE ((100 * dist + by) \div (100 * by)) + 1
       step == IF from < to THEN by ELSE -by
   IN [i \in 1..cnt |-> from + (i - 1) * step]
 
@@ -118,7 +120,7 @@ A(t, op, x, y, z, k) ==
     [] op = "Contains" -> Ok(\E i \in Idx(x) : x[i] = k[1])
     [] op = "Rep"      -> IF k[1] = 1 THEN Ok(x) ELSE IF k[1] = 0 THEN Ok(<<>>)
                           ELSE Ok([i \in 1..(n * k[1]) |-> x[((i - 1) % n) + 1]])
-    [] op = "Seq"      -> Ok(AlgoSeq(k[1], k[2], k[3]))
+    [] op = "Seq"      -> Ok(AlgoSeq(t, k[1], k[2], k[3]))
     [] op \in {"Fill", "AndEq"} -> OkX(0, [i \in Idx(x) |-> k[1]])
     [] op \in {"AddS", "SAdd"}  -> Ok(Map1(x, LAMBDA e : e + k[1]))
     [] op = "SubS"     -> Ok(Map1(x, LAMBDA e : e - k[1]))
@@ -130,6 +132,11 @@ A(t, op, x, y, z, k) ==
     [] op = "SubEqS"   -> OkX(0, Map1(x, LAMBDA e : e - k[1]))
     [] op = "MulEqS"   -> OkX(0, Map1(x, LAMBDA e : e * k[1]))
     [] op = "DivEqS"   -> OkX(0, Map1(x, LAMBDA e : TruncDiv(e, k[1])))
+    \* the scalar is copied before the loop
+    [] op = "AddEqE"   -> LET c0 == x[k[1] + 1] IN OkX(0, Map1(x, LAMBDA e : e + c0))
+    [] op = "SubEqE"   -> LET c0 == x[k[1] + 1] IN OkX(0, Map1(x, LAMBDA e : e - c0))
+    [] op = "MulEqE"   -> LET c0 == x[k[1] + 1] IN OkX(0, Map1(x, LAMBDA e : e * c0))
+    [] op = "DivEqE"   -> LET c0 == x[k[1] + 1] IN OkX(0, Map1(x, LAMBDA e : TruncDiv(e, c0)))
     [] op = "Add" -> IF mism THEN Rs(DIM) ELSE Ok(Map2(x, y, Plus))
     [] op = "Sub" -> IF mism THEN Rs(DIM) ELSE Ok(Map2(x, y, Minus))
     [] op = "Mul" -> IF mism THEN Rs(DIM) ELSE Ok(Map2(x, y, Times))
@@ -187,6 +194,8 @@ A(t, op, x, y, z, k) ==
 Pre(op, x, y, z, k) ==
   CASE op \in {"DivS", "DivEqS"} -> k[1] # 0
     [] op = "SDiv"               -> 0 \notin SetOf(x)
+    [] op \in {"AddEqE", "SubEqE", "MulEqE"} -> k[1] \in 0..(Len(x) - 1)
+    [] op = "DivEqE"             -> k[1] \in 0..(Len(x) - 1) /\ x[k[1] + 1] # 0
     [] op \in {"Div", "DivEq"}   -> 0 \notin SetOf(y)
     [] op = "Rep"                -> k[1] >= 0
     [] op = "Seq"                -> k[3] >= 1
